@@ -62,6 +62,8 @@ def meta_events(run, fnode):
         f = strip_cast(c.func)
         if isinstance(f, ast.Name) and f.id == 'MetaEvent' and c.args:
             name = const_str(c.args[0])
+            if name is None:
+                name = '?' + unparse(c.args[0])[:60]      # a name computed at run time
             out.append((name, kwargs_of(c), c))
     return sorted(out, key=lambda t: (t[2].lineno, t[2].col_offset))
 
@@ -73,7 +75,7 @@ def emissions(run, fnode):
         if c.args:
             a = strip_cast(c.args[0])
             if isinstance(a, ast.Call) and isinstance(a.func, ast.Name) and a.func.id == 'MetaEvent' and a.args:
-                out.append((const_str(a.args[0]), kwargs_of(a), c))
+                out.append((const_str(a.args[0]) or '?' + unparse(a.args[0])[:60], kwargs_of(a), c))
     return out
 
 
